@@ -45,6 +45,19 @@ func bitsToF32(v []int) float32 {
 	return math.Float32frombits(u)
 }
 
+// byRef hands bytes over by reference the way a producer may: from a buffer
+// that is overwritten as soon as the callback has returned (visitor.go,
+// StringRefVisitor: "the string passed might get modified after the callback
+// returns").
+func byRef(v []int, f func([]byte) error) error {
+	buf := intsToBytes(v)
+	err := f(buf)
+	for i := range buf {
+		buf[i] = 0xAA
+	}
+	return err
+}
+
 // replayEvent performs the call described by e on v.
 func replayEvent(v structform.ExtVisitor, e *Event) error {
 	switch e.K {
@@ -54,12 +67,12 @@ func replayEvent(v structform.ExtVisitor, e *Event) error {
 		return v.OnBool(e.V[0] == 1)
 	case "str":
 		if e.Ty == "strref" {
-			return v.OnStringRef(intsToBytes(e.V))
+			return byRef(e.V, v.OnStringRef)
 		}
 		return v.OnString(string(intsToBytes(e.V)))
 	case "key":
 		if e.Ty == "keyref" {
-			return v.OnKeyRef(intsToBytes(e.V))
+			return byRef(e.V, v.OnKeyRef)
 		}
 		return v.OnKey(string(intsToBytes(e.V)))
 	case "int":
